@@ -26,7 +26,11 @@ fn check_err<T: Ord + Default>(num: T) -> Result<T> {
 
 pub fn pipe() -> Result<(File, File)> {
     let mut fds = [0 as c_int; 2];
-    check_err(unsafe { libc::pipe(fds.as_mut_ptr()) })?;
+    // Create both ends close-on-exec atomically.  Setting the flag afterwards
+    // with fcntl() leaves a window in which a fork() + exec() in another
+    // thread inherits the descriptors.  The end meant for a child is handed
+    // over by dup2() onto 0/1/2, which clears the flag on the copy.
+    check_err(unsafe { libc::pipe2(fds.as_mut_ptr(), libc::O_CLOEXEC) })?;
     Ok(unsafe { (File::from_raw_fd(fds[0]), File::from_raw_fd(fds[1])) })
 }
 
@@ -281,6 +285,12 @@ pub fn fcntl(fd: i32, cmd: i32, arg1: Option<i32>) -> Result<i32> {
 
 pub fn dup2(oldfd: i32, newfd: i32) -> Result<()> {
     check_err(unsafe { libc::dup2(oldfd, newfd) })?;
+    Ok(())
+}
+
+pub fn clear_cloexec(fd: i32) -> Result<()> {
+    let old = fcntl(fd, F_GETFD, None)?;
+    fcntl(fd, F_SETFD, Some(old & !FD_CLOEXEC))?;
     Ok(())
 }
 
